@@ -56,10 +56,19 @@ namespace smt
                 expr.vars.erase(v);
                 expr += at_v->second->l * c;
             }
-        assert(!expr.vars.empty());
         const std::string s_expr = to_string(expr);
         if (const auto at_expr = exprs.find(s_expr); at_expr != exprs.cend()) // the expression already exists..
             return at_expr->second;
+        else if (expr.vars.empty())
+        { // the rows of the basic variables cancel every term: the new variable is a constant..
+            assert(sat->root_level());
+            const var cnst = new_var();
+            exprs.emplace(s_expr, cnst);
+            c_bounds[lb_index(cnst)] = {inf_rational(expr.known_term), TRUE_lit};
+            c_bounds[ub_index(cnst)] = {inf_rational(expr.known_term), TRUE_lit};
+            vals[cnst] = inf_rational(expr.known_term);
+            return cnst;
+        }
         else
         { // we need to create a new slack variable..
             assert(sat->root_level());
